@@ -164,7 +164,7 @@ def _control_spec(rng, k):
 def sec_control(ctx, rng, case):
     import cirq
 
-    specs = [s for s in _S["core"] if L.dim_of(s.shape) <= 8 and s.shape]
+    specs = [s for s in _S["core"] if L.dim_of(s.shape) <= 8 and (s.shape or s.name == "GlobalPhase")]  # (a bare phase can be controlled too)
     spec = specs[case % len(specs)]
     p = spec.sample(rng)
     if rng.random() < 0.5 and spec.eigen:
